@@ -365,6 +365,7 @@ def run(prog, chk):
     else:
         chk.bad("C16.c", esc, "escape-tables-differ-in-length", "%s:%s" % (esc.file, esc.line), "escapeChars has %d entries, escapeStrings %s: escapeStrings[escapeChar - escapeChars] indexes out of range / the wrong entity" % (len(chars), nstr))
     escape_table_reached(prog, chk, "C16.p", esc, sorted(chars))
+    numeric_references_translated(prog, chk, "C16.q", ts)
     # every text/attribute value written goes through escapeString
     raw = []
     for c in q.calls(ts):
@@ -730,3 +731,39 @@ def escape_table_reached(prog, chk, rid, esc, chars):
                     "for the byte %r the test `%s` sends escapeString down the path that copies it raw: the table lists it but is never "
                     "consulted - a text node containing it is written unescaped and the output does not parse back to the same tree" % (
                         chr(v), q.no_casts(esc.r(esc.strip(off)))[:60]), evals=len(atoms) + 1)
+
+
+def numeric_references_translated(prog, chk, rid, ts):
+    """the writer spells some bytes of an attribute value as numeric character references (`&#13;`, `&#10;`): the reader is the only
+    place that turns them back, so its numeric branch has to translate at least every reference the writer emits"""
+    chk.rule(rid, "TBL: for every numeric character reference `&#N;` that Element::toString writes, the tests between the successful scan of "
+                  "the number in unescapeString and the translation `Unicode::toString(value)` evaluate, for value = N, to the edge that translates", floor=1)
+    un = xfn(prog, X + "unescapeString")
+    emitted = set()
+    for f in (ts, xfn(prog, X + "escapeString")):
+        for n in f.nodes:
+            if n["k"] == "StringLiteral" and n.get("bytes"):
+                for m in re.finditer(r"&#(\d+);", bytes(b & 0xFF for b in n["bytes"]).decode("latin1")):
+                    emitted.add(int(m.group(1)))
+    if not emitted:
+        raise AnalysisBroken("Element::toString: no numeric character reference literal found (the writer's `&#13;` / `&#10;` expected)")
+    tr = [c for c in q.calls(un) if (un.nodes[c].get("callee") or "").startswith("Unicode::toString") or (un.nodes[c].get("callee") or "") == "Unicode::append"]
+    sc = [c for c in q.calls(un) if (un.nodes[c].get("callee") or "").endswith("scanf") or (un.nodes[c].get("callee") or "") in ("strtoul", "strtol", "String::toUInt")]
+    if not tr or not sc:
+        raise AnalysisBroken("unescapeString: the scan of the number or its translation through Unicode was not found")
+    a0 = q.call_args(un, tr[0])
+    vkey = fin.key(un, a0[0])
+    sb = un.node_pos(sc[0])[0]
+    for N in sorted(emitted):
+        val = {vkey: N, q.no_casts(q.xr(un, a0[0])): N, fin.key(un, sc[0]): 1}
+        seen, end, _fv = fin.walk_vals(un, sb, val, limit=60, stop_at=tr[0], stop_at_loop_back=True)
+        if end == "stop":
+            chk.ok(rid, un, "&#%d; written by toString is translated by the reader" % N, un.where(tr[0]), "guards between the scan and the translation evaluated for the value", evals=len(seen) + 1)
+        elif isinstance(end, str) and end.startswith("undetermined"):
+            raise AnalysisBroken("unescapeString: a test between the scan of the number and its translation could not be evaluated for %d (%s)" % (N, end))
+        else:
+            conds = [e for e in seen if un.nodes[e]["k"] == "BinaryOperator" and un.nodes[e].get("op") in ("<", "<=", ">", ">=", "==", "!=") and vkey in fin.key(un, e)]
+            chk.bad(rid, un, "numeric-reference-not-translated:%d" % N, un.where(conds[-1]) if conds else un.where(sc[0]),
+                    "Element::toString writes the byte %d of an attribute value as `&#%d;`, but for that value the tests after the scan (%s) keep "
+                    "unescapeString from translating it: the value comes back with the six characters of the reference instead of the byte" % (
+                        N, N, ", ".join(q.no_casts(un.r(e))[:30] for e in conds[-3:]) or "-"), evals=len(seen) + 1)
